@@ -185,8 +185,8 @@ int part_a(Reader& r, bool& nontrivial, std::string& desc) {
 }
 
 // ---------------------------------------------------------------- part B: misuse while the lock is held
-struct BCase { int misuse; int fam; int size; int after_allocs; int output; int swap; };   // swap: the global detector is replaced while the thread-safe mode is on   // output: 0 string buffer, 1 collecting (keeps new-ed copies of failures, like JUnit), 2 JUnitTestOutput
-BCase g_b; int g_b_continued;
+struct BCase { int misuse; int fam; int size; int after_allocs; int output; int swap; int via_realloc; };   // swap: the global detector is replaced while the thread-safe mode is on   // output: 0 string buffer, 1 collecting (keeps new-ed copies of failures, like JUnit), 2 JUnitTestOutput
+BCase g_b; int g_b_continued; void* volatile g_sink;
 // kind 3: the platform allocator fails once while a thread-safe overload holds the lock (the allocator reports it as a test failure)
 void* (*g_real_malloc)(size_t); bool g_fail_next_malloc;
 void* failing_malloc(size_t n) { if (g_fail_next_malloc) { g_fail_next_malloc = false; return nullptr; } return g_real_malloc(n); }
@@ -199,10 +199,15 @@ void part_b_body(void*) {
     g_fail_next_malloc = false;
     switch (g_b.misuse) {
     case 0: p[g_b.size] = 'X'; break;                                        // overrun into the guard bytes
-    case 1: { static char foreign[8]; if (g_b.fam == 2) cpputest_free_location(foreign, "b.c", 2); else ::operator delete(foreign); } break;   // not allocated
+    case 1: { static char foreign[8]; if (g_b.via_realloc) g_sink = cpputest_realloc_location(foreign, 16, "b.c", 2); else if (g_b.fam == 2) cpputest_free_location(foreign, "b.c", 2); else ::operator delete(foreign); } break;   // not allocated
     default: break;                                                         // family mismatch below
     }
-    if (g_b.misuse == 2) { if (g_b.fam == 0) ::operator delete[](p); else if (g_b.fam == 1) ::operator delete(p); else ::operator delete(p); }
+    if (g_b.via_realloc && g_b.misuse != 3) {
+        // the release half of a realloc: corrupted guard bytes (kind 0) or a new / new[] block handed to realloc (kind 2) are found under the same lock
+        void* q = cpputest_realloc_location(p, (size_t)g_b.size + 8, "b.c", 4); g_sink = q;
+        if (q) cpputest_free_location(q, "b.c", 5);
+    }
+    else if (g_b.misuse == 2) { if (g_b.fam == 0) ::operator delete[](p); else if (g_b.fam == 1) ::operator delete(p); else ::operator delete(p); }
     else if (g_b.fam == 0) ::operator delete(p); else if (g_b.fam == 1) ::operator delete[](p); else cpputest_free_location(p, "b.c", 3);
     g_b_continued = 1;   // only reached when the misuse was not reported by leaving the test
 }
@@ -256,9 +261,13 @@ int run_part_b(std::string& desc, bool& reported, long& locks, long& unlocks, in
 int part_b(Reader& r, bool& nontrivial, std::string& desc) {
     g_b.misuse = (int)r.below(3); g_b.fam = (int)r.below(3); g_b.size = 1 + (int)r.below(64); g_b.after_allocs = 1 + (int)r.below(3); g_b.output = (int)r.below(3); g_b.swap = r.below(3) == 1;
     if (r.below(4) == 1) g_b.misuse = 3;   // decoded last: earlier inputs keep their meaning
+    g_b.via_realloc = g_b.misuse != 3 && r.below(3) == 1;   // the misuse is met by realloc instead of a release
+    if (g_b.via_realloc && g_b.misuse == 2 && g_b.fam == 2) g_b.fam = (int)r.below(2);   // a mismatch through realloc needs a new / new[] block
+    if (g_b.via_realloc && g_b.misuse == 0) g_b.fam = 2;                                  // corruption found by realloc: a malloc block (no mismatch in the way)
     static const char* MN[] = {"guard overrun", "release of a foreign address", "family mismatch", "platform allocator failing under the lock"}; static const char* FN[] = {"new", "new[]", "malloc"};
     static const char* ON[] = {"string-buffer output", "collecting output", "JUnit output"};
-    desc = sfmt("B: %s%s on a %s block of %d bytes, %s, then %d more allocations", g_b.swap ? "global detector replaced while the mode is on, " : "", MN[g_b.misuse], FN[g_b.fam], g_b.size, ON[g_b.output], g_b.after_allocs);
+    if (g_b.via_realloc) verif::cls("B:misuse met by realloc");
+    desc = sfmt("B: %s%s%s on a %s block of %d bytes, %s, then %d more allocations", g_b.swap ? "global detector replaced while the mode is on, " : "", g_b.via_realloc ? "through realloc: " : "", MN[g_b.misuse], FN[g_b.fam], g_b.size, ON[g_b.output], g_b.after_allocs);
     if (g_b.swap) verif::cls("B:detector-replaced-in-thread-safe-mode");
     verif::cls(sfmt("B:%s", MN[g_b.misuse]).c_str()); verif::cls(sfmt("B:%s", ON[g_b.output]).c_str());
     nontrivial = true;
@@ -295,8 +304,8 @@ extern "C" int verif_case(const uint8_t* data, size_t size) {
     return rc;
 }
 extern "C" int verif_known_repro(const char* key) {
-    if (std::string(key) == "C10:allocator-failure-reported-under-the-lock") g_b = BCase{3, 1, 8, 1, 1, 0};
-    else if (std::string(key) == "C10:lock-held-after-misuse") g_b = BCase{0, 1, 8, 1, 0, 0};
+    if (std::string(key) == "C10:allocator-failure-reported-under-the-lock") g_b = BCase{3, 1, 8, 1, 1, 0, 0};
+    else if (std::string(key) == "C10:lock-held-after-misuse") g_b = BCase{0, 1, 8, 1, 0, 0, 0};
     else return -1;
     std::string d; bool reported; long locks, unlocks; int relock;
     run_part_b(d, reported, locks, unlocks, relock);
